@@ -113,6 +113,45 @@ let run_case op t =
       let len = next_z t in
       let (worse, al) = asdef_obs len in
       ("ok " ^ str_of_z worse ^ " 1 # " ^ str_of_z al, "ok 0 1")
+  | "sspan" ->
+      (* sspan <kind> <elem> <static> <N> <Offset> <Count (-1 = dynamic_extent)>: sub-views of a span over N elements
+         (coq/C02/ModelSub.v); legs: extent of the result type, size(), first / one-past-last element as index of the parent,
+         elements outside the parent, guard elements changed by the fill (0), parent elements changed (= size) *)
+      let kind = next_str t in
+      let _ = next_str t in
+      let st = next_int t <> 0 in
+      let n = next_z t in
+      let off = next_z t in
+      let cnt = next_z t in
+      let k = (match kind with
+               | "sub" -> KSub | "first" -> KFirst | "last" -> KLast | "rsub" -> KSubR | "rfirst" -> KFirstR | "rlast" -> KLastR
+               | _ -> raise Not_found) in
+      let p = parent st (z_of_int 1000) n in
+      let show l = (match l with
+                    | [e; sz; b; en; out] -> "ok " ^ zs [e; sz; b; en; out] ^ " guard 0 hit " ^ str_of_z sz
+                    | _ -> "bad-observation") in
+      let m = (match sub_run true k p off cnt with
+               | Ok r -> show (sub_obs p r) | Contract -> "contract" | UB _ -> "ub" | OutOfFuel -> "outoffuel") in
+      (m, show (sub_spec k st n off cnt))
+  | "uninit" ->
+      (* uninit <move|copy|fill> <n> <t>: the construct / throw / destroy events on the n destination slots when the
+         construction of slot t throws (t >= n: none does); the model leg is `ub` when a constructor would run over a live
+         object or a destructor on a slot without one *)
+      let algo = next_str t in
+      let n = next_int t in
+      let tt = next_int t in
+      let evs l = if l = [] then "none" else join (List.map (function
+                    | Construct i -> "C" ^ string_of_int (int_of_nat i)
+                    | Throw i -> "T" ^ string_of_int (int_of_nat i)
+                    | Destroy i -> "D" ^ string_of_int (int_of_nat i)) l) in
+      let show ((es, threw), ret) alive =
+        "ok " ^ b2s threw ^ " " ^ (if threw || algo = "fill" then "-" else string_of_int (int_of_nat ret))
+        ^ " ev " ^ evs es ^ " live " ^ string_of_int alive ^ " left 0" in
+      let count l = List.length (List.filter (fun b -> b) l) in
+      let ((es, _), _) as r = uninit_run (nat_of_int n) (nat_of_int tt) in
+      let m = (match replay es (List.init n (fun _ -> false)) with
+               | Ok live -> show r (count live) | Contract -> "contract" | UB _ -> "ub" | OutOfFuel -> "outoffuel") in
+      (m, show (uninit_spec (nat_of_int n) (nat_of_int tt)) (if tt < n then 0 else n))
   | "san_canary" ->
       (* the sanitizer builds must abort on the deliberate misaligned access / heap overflow; the other builds skip *)
       ("crash 6", "na")
